@@ -8,7 +8,7 @@ From Coq Require Import NArith.
 From SV Require Import SM.IndexModel SM.IndexProofs SM.IndexSearchProofs SM.IndexShapes SM.IndexShapeProofs
   SM.IndexUniqueProofs SM.IndexCopySetProofs SM.IndexMaint SM.IndexMaintProofs SM.IndexEquivProofs
   SM.IndexRemove SM.IndexRemoveProofs SM.IndexDel SM.IndexDelProofs SM.IndexListOps SM.IndexListOpsProofs SM.IndexClear SM.IndexClearProofs
-  SM.IndexGlue SM.IndexGlueProofs SM.IndexProperty.
+  SM.IndexGlue SM.IndexGlueProofs SM.IndexProperty SM.IndexFold.
 From Coq Require Strings.String.
 Notation string := String.string (only parsing).
 
@@ -465,3 +465,21 @@ Theorem c07_make_unique_unfolded_candidate_differs :
   kv_find ascii_fold tn (keys_of (make_unique_sh ascii_fold mu_unfolded_cand 3 [] st0).1 3) = Some [88;49]%N ∧
   kv_find ascii_fold tn (keys_of (make_unique ascii_fold 3 [] st0).1 3) = Some [88;50]%N.
 Proof. exact mu_unfolded_cand_differs. Qed.
+
+(** Round 4: case folding by table.  [str.casefold] works code point by code point; the correspondence instantiates the
+    model with [table_fold tab], ASCII lower-casing extended by the table [code point ↦ chr(c).casefold()] that CPython
+    gives for the non-ASCII code points of the batch.  For every such table the folding satisfies the hypotheses of all
+    the theorems above; idempotence holds when the images are their own folding (a boolean the check evaluates). *)
+Theorem c07_table_fold_ok : ∀ tab, tab_non_ascii tab = true →
+  table_fold tab [] = [] ∧ table_fold tab cn = cn ∧ table_fold tab tn = tn ∧ table_fold tab ws = ws ∧
+  (∀ b i, table_fold tab (b ++ dec i) = table_fold tab b ++ dec i) ∧
+  (table_fold tab nodeid ≠ cn ∧ table_fold tab nodeid ≠ tn).
+Proof.
+  intros tab Ht. destruct (table_fold_ok tab Ht) as (H1 & H2 & H3 & H4 & H5). repeat split; try done; by apply table_fold_nodeid.
+Qed.
+Theorem c07_table_fold_idem : ∀ tab, tab_non_ascii tab = true → tab_closed tab = true →
+  ∀ s, table_fold tab (table_fold tab s) = table_fold tab s.
+Proof. exact table_fold_idem. Qed.
+Example c07_table_fold_example : tab_non_ascii tab_example = true ∧ tab_closed tab_example = true ∧
+  tab_closed [(7838, [223]); (223, [115; 115])]%N = false ∧ table_fold tab_example [83; 223; 304]%N = [115; 115; 115; 105; 775]%N.
+Proof. exact tab_example_ok. Qed.
